@@ -506,3 +506,37 @@ def replay_solver_init(o, model):
             return dict(ok=True, function="SolverWrapper.__init__", expected="mip_abs_gap and mip_rel_gap <= tolerance", **rec)
         tried.append(rec)
     return dict(ok=False, function="SolverWrapper.__init__", tried=tried)
+
+
+def replay_stdigraph_width(o, model):
+    """native replay for stDiGraph.get_width: the real method on real stDiGraph objects of two small digraphs with bundles of parallel inter-SCC edges; the weight
+    function it hands to the antichain routine (recorded) is compared with: bundle -> multiplicity minus ignored edges, node edge -> 0 iff every member edge of a
+    non-trivial SCC is ignored."""
+    import itertools
+    import networkx as nx
+    import flowpaths as fp
+    tried = 0
+    for E in ([("s", "a"), ("a", "b"), ("b", "a"), ("a", "t"), ("b", "t")], [("s", "a"), ("a", "b"), ("b", "c"), ("c", "a"), ("a", "t"), ("b", "t"), ("c", "t")]):
+        g = nx.DiGraph(E)
+        for ign in [[]] + [[e] for e in E] + [list(p) for p in itertools.combinations(E, 2)]:
+            H = fp.stDiGraph(g)
+            calls = []
+            H._condensation_expanded.compute_max_edge_antichain = lambda get_antichain=False, weight_function=None, calls=calls: (calls.append(dict(weight_function)) or 1)
+            tried += 1
+            try:
+                H.get_width(edges_to_ignore=[tuple(e) for e in ign])
+            except Exception as e:      # noqa
+                return dict(ok=True, function="stDiGraph.get_width", edges=E, ignore=ign, observed="raised %s: %s" % (type(e).__name__, e))
+            if len(calls) != 1:
+                return dict(ok=True, function="stDiGraph.get_width", edges=E, ignore=ign, observed="%d calls of the antichain routine" % len(calls))
+            C, igs, want = H._condensation, set(map(tuple, ign)), {}
+            for (c1, c2) in C.edges():
+                bundle = [(u, v) for (u, v) in H.edges() if C.graph["mapping"][u] == c1 and C.graph["mapping"][v] == c2]
+                want[H._condensation_edge_to_condensation_expanded_edge(c1, c2)] = len(bundle) - len([e for e in bundle if e in igs])
+            for node in C.nodes():
+                members = [(u, v) for (u, v) in H.edges() if C.graph["mapping"][u] == node and C.graph["mapping"][v] == node]
+                want[(str(node), H._expanded(node))] = 0 if (members and all(e in igs for e in members)) else 1
+            got = {e: w for e, w in calls[0].items() if e in want or w != 0}
+            if got != want:
+                return dict(ok=True, function="stDiGraph.get_width", edges=E, ignore=ign, observed=str(sorted(got.items())), expected=str(sorted(want.items())))
+    return dict(ok=False, function="stDiGraph.get_width", tried=tried)
